@@ -31,6 +31,7 @@ structure DS where
   svc : Bool := false            -- service-level case: an actorex/service.Service owns the manager
   pending : List (Nat × Nat) := []  -- its request table: (tag, deadline)
   own : Nat := 0                 -- Service.timerCheckExpired
+  again : List Nat := []         -- tags of the requests whose completion callback retries on timeout
   deriving Inhabited
 
 def qcap : Nat := 999
@@ -186,7 +187,7 @@ implementation is compared with is a `svcRun` history.  The driver only decides 
 environment steps happen (which runtime timers are due, when the loop drains). -/
 
 open Cell2v.TimerSvc in
-def svOf (d : DS) : Svc := { t := d.m, own := d.own, pending := d.pending }
+def svOf (d : DS) : Svc := { t := d.m, own := d.own, pending := d.pending, again := d.again }
 
 /-- one step of the service model, `cand` kept aligned with the armings -/
 def stepS (d : DS) (op : TimerSvc.SOp) : DS × List Event :=
@@ -196,7 +197,7 @@ def stepS (d : DS) (op : TimerSvc.SOp) : DS × List Event :=
     | .created id t dl _ _ => c ++ [(id, t + dl)]
     | .rearm id t p => c ++ [(id, t + p)]
     | _ => c) d.cand
-  ({ d with m := r.1.t, own := r.1.own, pending := r.1.pending, cand := cand, tags := [] }, r.2)
+  ({ d with m := r.1.t, own := r.1.own, pending := r.1.pending, again := r.1.again, cand := cand, tags := [] }, r.2)
 
 /-- every runtime timer due at the current instant goes off -/
 def settleS (d : DS) : DS :=
@@ -241,7 +242,8 @@ def execSvc (d : DS) (ws : List String) : DS × String :=
   | some "sreq" =>
     match kvNat ws "k" with
     | some k =>
-      let d := settleS (stepS d (.req k)).1
+      -- `again=1`: the request's completion callback issues request k+1000 when called with ErrTimeout
+      let d := settleS (stepS d (if (kvNat ws "again").getD 0 == 1 then .reqAgain k else .req k)).1
       (d, svcSuffix d [])
     | none => (d, "bad-op")
   | some "sresp" =>
@@ -266,7 +268,7 @@ def parseAct (tok : String) : Option Act :=
   match tok.splitOn ":" with
   | ["cs"] => some .cancelSelf
   | ["cn"] => some .cancelNewest
-  | ["p"] => some .panic
+  | ["p"] | ["pe"] | ["pr"] | ["pv"] => some .panic   -- whatever the value thrown: `recover()` takes it
   | ["c", x] => x.toNat?.map .cancel
   | ["a", du, k, arg] => do pure (.after (← du.toInt?) (← k.toNat?) (← arg.toNat?))
   | ["t", du, k, arg] => do pure (.add (← du.toInt?) (← k.toNat?) (← arg.toNat?))
